@@ -18,7 +18,9 @@ CONFIG = dict(
           "a timeout whose outcome is fixed without other goroutines (fits / above capacity / after terminate: any timeout up to "
           "1 h; otherwise <= 4 ms and the result must be false no earlier than the timeout). Blocking: six scenario kinds "
           "(never release, release enough, release too little, terminate, above capacity, fits at once), optional second waiter "
-          "with an arbitrary request, action delay 0-8 ms. Oracle: counter model; refused within capacity => returned no earlier "
+          "with an arbitrary request, action delay 0-8 ms. A seventh kind releases more than is held while a waiter is blocked (over-release: "
+          "one warning, held reset to zero, the waiter must be granted within the 'as soon as' bound), and where a timeout means 'no limit' it "
+          "is drawn from one hour, MaxInt64 ns, MaxInt64/2 ns and 290 years. Oracle: counter model; refused within capacity => returned no earlier "
           "than its timeout and the request did not fit the final held amount unless the release ended after its deadline; granted "
           "=> fitted (and not before the enabling release was called); above capacity => refused; final Processing() equals held - "
           "released + granted <= capacity; no spurious warnings. Non-trivial = sequential history with an over-release; blocking "
